@@ -73,6 +73,12 @@ def alphabet(world):
                     w = c.broker.get_token_balance(t)
                     return do("supply", t, w, lambda: m.supply(t, w, True))
                 out.append(Op(f"supply[{t.name},wallet]", all_in, True, "supply"))
+            if t == aave.DAI:
+                # nearly everything the wallet holds (0.005 % less): the stated amount moves, not the whole balance
+                def near_all(c, t=t):
+                    w = (c.broker.get_token_balance(t) * Decimal("0.99995")).quantize(Decimal("1e-12"))
+                    return do("supply", t, w, lambda: m.supply(t, w, True))
+                out.append(Op(f"supply[{t.name},near-wallet]", near_all, True, "supply"))
             if t != aave.USDC:
                 # a supply that is not used as collateral accrues and is withdrawn exactly like any other
                 out.append(Op(f"supply[{t.name},nocoll]", lambda c, t=t, a=a: do("supply", t, a, lambda: m.supply(t, a, False)), True, "supply"))
@@ -88,6 +94,12 @@ def alphabet(world):
                 big = STATED[t.name] * Decimal("0.45")  # more than the DAI supply is worth: repaying it with DAI collateral hits the cap
                 out.append(Op(f"borrow[{t.name},big]", lambda c, t=t, big=big: do("borrow", t, big, lambda: m.borrow(t, big)), False, "borrow"))
             if t in m._borrows:
+                def hair(c, t=t):
+                    # a hair more than is owed: no such repayment exists (the ledger would have to show a negative debt)
+                    d = m.get_borrow(t).amount
+                    ctx.last = {"kind": "repay-over", "token": t.name, "amount": None, "extra": "cash"}
+                    return m.repay(t, d + Decimal("3e-12"))
+                out.append(Op(f"repay[{t.name},hair-over]", hair, True, "repay-over"))
                 b = STATED[t.name] / 11
                 out.append(Op(f"repay[{t.name},part]", lambda c, t=t, b=b: do("repay", t, b, lambda: m.repay(t, b), "cash"), False, "repay"))
                 out.append(Op(f"repay[{t.name},None]", lambda c, t=t: do("repay", t, None, lambda: m.repay(t), "cash"), True, "repay"))
@@ -177,6 +189,20 @@ class Oracle:
                 self.part.violation(f"C10|{where}|debt-amount", "debt differs from amount x borrow index ratio", case,
                                     {"token": k.name, "got": float(got), "want": float(want), "diff": float(got - want)})
                 ok = False
+        # the public listings show the same balances as the single-position lookups
+        try:
+            listed_s = {k.name: F(v.amount) for k, v in m.supplies.items()}
+            listed_b = {k.name: F(v.amount) for k, v in m.borrows.items()}
+        except kit.REJECTIONS as e:
+            self.part.violation(f"C10|{where}|listing-raised", "reading the supplies / borrows listing raised", case, {"error": repr(e)[:160]})
+            listed_s = listed_b = None
+        if listed_s is not None:
+            for name, listed, sec, idx in (("supplies", listed_s, "sup", 0), ("borrows", listed_b, "bor", 1)):
+                want = {k: md[sec][k] * ad.indices(k)[idx] for k in md[sec]}
+                if set(listed) != set(want) or any(abs(listed[k] - want[k]) > EPS + abs(want[k]) / 10**25 for k in want):
+                    self.part.violation(f"C10|{where}|listing-{name}", f"the {name} listing does not show amount x index_now / index_then for every position", case,
+                                        {"listed": {k: float(v) for k, v in listed.items()}, "ledger": {k: float(v) for k, v in want.items()}})
+                    ok = False
         for k, v in ctx.wallet().items():
             if abs(F(v) - md["wallet"][k]) > EPS:
                 self.part.violation(f"C10|{where}|wallet", "wallet moved by something else than the stated amount", case,
@@ -204,6 +230,10 @@ class Oracle:
             self.compare(ctx, hist, f"rejected-{op.kind}")
             return
         part.count("accepted")
+        if op.kind == "repay-over":
+            part.violation("C10|repay|more-than-owed-accepted", "a repayment of more than the debt was accepted (wallet and debt can not both move by the stated amount)",
+                           {"history": list(hist)}, {"label": op.label})
+            return
         info = ctx.last
         n_before = snap["n_actions"]
         self.step_model(ctx, info, None)
